@@ -8,13 +8,21 @@ from . import table_common as tc
 from .core import Prop, exc_class
 
 
-def call_bin(series, n_bins, method):
+def call_bin(series, n_bins, method, container="polars"):
+    """container: how the same column is handed over - the polars Series, a Python list / tuple (None for missing values), a
+    numpy array (NaN for missing values; floats only)"""
     import polars as pl
     from model_diagnostics._utils.binning import bin_feature
 
+    feat = series
+    if container in ("list", "tuple"):
+        feat = series.to_list()
+        feat = feat if container == "list" else tuple(feat)
+    elif container == "numpy":
+        feat = series.to_numpy()
     try:
         with pl.StringCache():
-            feature, nb, fb = bin_feature(feature=series, feature_name=None, n_obs=series.len(), n_bins=n_bins, bin_method=method)
+            feature, nb, fb = bin_feature(feature=feat, feature_name=None, n_obs=series.len(), n_bins=n_bins, bin_method=method)
             bins = fb.get_column("bin").to_list()
             edges = fb.get_column("bin_edges").to_list() if "bin_edges" in fb.columns else None
     except Exception as e:
@@ -60,11 +68,15 @@ class C13(Prop):
             nb = rng.randint(2, 12)
             if rng.random() < 0.55:
                 kind, vals = tc.gen_numeric_feature(rng, n)
-                yield {"stream": "numeric", "kind": kind, "n_bins": nb, "method": rng.choice(tc.ALL_METHODS[:2] * 3 + tc.NUMPY_METHODS),
+                fcont = "polars"
+                if kind in ("float", "float_null", "float_nan", "const", "few", "allnull") and rng.random() < 0.35:
+                    fcont = rng.choice(["list", "tuple", "numpy"])  # float columns: same dtype (Float64) whichever container
+                yield {"stream": "numeric", "kind": kind, "n_bins": nb, "method": rng.choice(tc.ALL_METHODS[:2] * 3 + tc.NUMPY_METHODS), "fcontainer": fcont,
                        "feature": [None if v is None else (v if isinstance(v, int) else ("nan" if math.isnan(v) else ("inf" if v == math.inf else ("-inf" if v == -math.inf else v)))) for v in vals]}
             else:
                 dtype, vals, enum = tc.gen_string_feature(rng, n)
-                yield {"stream": "string", "kind": dtype, "n_bins": nb, "method": rng.choice(tc.ALL_METHODS), "feature": vals, "enum": enum}
+                yield {"stream": "string", "kind": dtype, "n_bins": nb, "method": rng.choice(tc.ALL_METHODS), "feature": vals, "enum": enum,
+                       "fcontainer": rng.choice(["list", "tuple"]) if dtype == "str" and rng.random() < 0.3 and any(v is not None for v in vals) else "polars"}
         for k in range(24 if tier == "quick" else 300):
             # narrow integer columns (Int8 / UInt8 / Int16 / UInt16), also with more bins than an 8-bit bin index could hold
             many = k % 3 == 0
@@ -94,7 +106,7 @@ class C13(Prop):
         return tc.string_series(case["kind"], case["feature"], case.get("enum"))
 
     def impl(self, case):
-        return call_bin(self.series(case), case["n_bins"], case["method"])
+        return call_bin(self.series(case), case["n_bins"], case["method"], case.get("fcontainer", "polars"))
 
     def model_request(self, case):
         if case["stream"] == "numeric":
